@@ -146,6 +146,21 @@ func (c *FnCtx) step(frame *Frame, st *State, in ssa.Instruction) (forkFn, bool)
 				lo = "(- 1)"
 			}
 			st.assume(fmt.Sprintf("(and (<= %s %s) (< %s %d))", lo, tv.F[0].S, tv.F[0].S, len(x.States)))
+			// a chosen send case sends: count it in the ghost sent(ch)
+			name := arrName("S", "sent", "", "Int")
+			arr := c.heapGet(st.heap, name)
+			cur := arr
+			for i, s := range x.States {
+				if s.Dir == types.SendOnly {
+					ch := c.val(st, s.Chan)
+					st.assume("(>= " + sel(arr, ch.S) + " 0)")
+					cur = ite(eq(tv.F[0].S, fmt.Sprintf("%d", i)), sto(arr, ch.S, "(+ "+sel(arr, ch.S)+" 1)"), cur)
+				}
+			}
+			if cur != arr {
+				c.heapSet(st, name, cur)
+				c.note("select with a send case: the send is counted in ghost sent(ch) when that case is chosen")
+			}
 		}
 	case *ssa.Store:
 		return nil, c.doStore(st, x)
